@@ -271,3 +271,10 @@ Section Rows.
     rewrite ravel_app by (now apply in_range_length). cbn [ravel nprod]. lia.
   Qed.
 End Rows.
+
+Lemma ravel_unravel_inverse :
+  forall s, (forall idx, in_range s idx -> unravel s (ravel s idx) = idx) /\
+            (forall k, k < nprod s -> ravel s (unravel s k) = k /\ in_range s (unravel s k)).
+Proof.
+  intros s. split; [apply unravel_ravel|]. intros k Hk. split; [now apply ravel_unravel| now apply unravel_in_range].
+Qed.
